@@ -65,6 +65,10 @@ func (x *Exec) goTo(st *State, from, to *ssa.BasicBlock) {
 	li := x.loopsOf(fr.fn)[to]
 	if li != nil {
 		top := fr.parent == nil && fr.fn == x.fn
+		if top {
+			x.curLoop = li
+			defer func() { x.curLoop = nil }()
+		}
 		if li.body[from] {
 			// back edge: invariant preservation, then the path ends
 			if top && li.lc != nil {
@@ -482,7 +486,7 @@ func (x *Exec) indexAddr(st *State, i *ssa.IndexAddr) SymVal {
 	case *types.Slice:
 		s := x.tval(st, i.X)
 		x.boundsCheck(st, idx, SlLen(s), i, "index")
-		return &Addr{Kind: aElem, Ref: SlBase(s), Idx: Add(SlOff(s), idx), Key: x.elemHeapKey(u.Elem()), Typ: u.Elem(), Root: u.Elem()}
+		return &Addr{Kind: aElem, Ref: SlBase(s), Idx: SlIdx(s, idx), Key: x.elemHeapKey(u.Elem()), Typ: u.Elem(), Root: u.Elem()}
 	case *types.Pointer:
 		arr := types.Unalias(u.Elem()).Underlying().(*types.Array)
 		base := x.val(st, i.X)
